@@ -302,6 +302,16 @@ def _nearest(ctx, p, fn, b, bi, t, info):
                         vt = fn.op_terms(fo, (db, di))
                         if vt and all(d[0] == 'call' and d[1] == DISTANCE for d in vt) and dmin is not None and vt <= dmin:
                             upd = True
+        if not upd and di < fn.nstmts(db):
+            # the whole (index, minimum) pair is taken over in one move (`if candidate.1 < best.1 { candidate } else { best }`):
+            # the other component of the moved pair is the compared distance
+            st_ = fn.blocks[db]['stmts'][di]
+            if st_['k'] == 'assign' and st_['rv']['k'] == 'use' and not st_['place']['p'] and fn.b.local_ty(st_['place']['l']).startswith('('):
+                whole = fn.op_terms(st_['rv']['op'], (db, di))
+                for k in range(4):
+                    vt = fn._field(whole, str(k))
+                    if vt and all(d[0] == 'call' and d[1] == DISTANCE for d in vt) and dmin is not None and vt <= dmin:
+                        upd = True
         if not upd:
             probs.append('the running minimum is not updated together with the nearest index at %s' % fn.loc(db, di))
     if lo_seen is not None and lo_seen >= 1:
